@@ -277,7 +277,7 @@ class SymSeq(Model):
         if reg is not None and fn in getattr(reg, "generic_loops", ()):
             # independent-iterations rule: the body is executed once for an arbitrary index; sound when the body writes
             # only to a write-only accumulator (a recording model) -- the contract that enables this states that frame
-            carried = loop_carried_names(node)
+            carried = loop_carried_names(node, getattr(reg, "generic_store_ok", ()))
             if carried:
                 raise Unsupported("independent-iterations rule does not apply: the loop body carries %s from one iteration to the next" % sorted(carried))
             j = self.fresh_index(I, "j")
@@ -288,7 +288,7 @@ class SymSeq(Model):
         summarise_loop(I, self, node, fr)
 
 
-def loop_carried_names(loop):
+def loop_carried_names(loop, store_ok=()):
     """Names assigned in the loop body that may be read before they are (definitely) assigned in the same iteration, plus
     attribute/subscript stores: such a body is not a set of independent iterations."""
     assigned_anywhere = set()
@@ -313,6 +313,8 @@ def loop_carried_names(loop):
                         definite.add(t.id)
                     elif isinstance(t, (ast.Tuple, ast.List)) and all(isinstance(e, ast.Name) for e in t.elts):
                         definite.update(e.id for e in t.elts)
+                    elif isinstance(t, ast.Subscript) and isinstance(t.value, ast.Name) and t.value.id in store_ok:
+                        reads(t.slice, definite)  # a store into the designated write-only accumulator
                     else:
                         carried.add("<store to %s>" % ast.unparse(t)[:30])
             elif isinstance(st, ast.AugAssign):
